@@ -254,7 +254,7 @@ def units(tier):
     ns = len(seeds(tier))
     us += [("MUT", i) for i in range(ns)]
     us += [("SOUP", 3 if tier == "quick" else 4, i) for i in range(len(SOUP))]
-    us += [("ROOTS",)]
+    us += [("ROOTS",), ("INCLUDEQ",)]
     return us
 
 
@@ -431,6 +431,36 @@ def run_roots(res):
         else:
             R.add_violation(res, "root|%s" % text, msg, {"text": text}, None)
     R.add_sub(res, "block types as roots", n)
+
+
+# ------------------------------------------------------------------ (e') INCLUDE lines with every kind of broken quoting, naming a file that exists
+def run_includeq(res):
+    """the INCLUDE pre-pass is text processing outside the grammar: whatever the quoting of the line, the outcome is a dictionary, a Lark
+    error or an I/O / include error - with the named file PRESENT, so that a quoting accident is not hidden behind 'file not found'"""
+    import shutil
+    import tempfile
+
+    tmp = tempfile.mkdtemp(prefix="mcf_c11q_")
+    try:
+        p = os.path.join(tmp, "inc.map")
+        with open(p, "w", encoding="utf-8") as f:
+            f.write('  NAME "included"\n')
+        forms = ['"%s', "'%s", '%s"', "%s'", '"%s\'', '\'%s"', '"%s  # note', "'%s # c'", '""%s""', '"%s" "extra"', "%s %s", '"%s"x', "`%s`", "(%s)", '"%s\\"', "%s # \"", '\\"%s\\"',
+                 "[%s]", '"%s";', "%s\t#\t'"]
+        n = 0
+        for form in forms:
+            for kwd in ("INCLUDE", "include"):
+                for nl in ("\n", "\r\n"):
+                    try:
+                        arg = form % ((p,) * form.count("%s"))
+                    except TypeError:
+                        continue
+                    text = nl.join(["MAP", "  %s %s" % (kwd, arg), "END"]) + nl
+                    n += 1
+                    run_text(res, text, "INCLUDE lines with broken quoting", sigtext="includeq|%s %s" % (kwd, form))
+        R.add_sub(res, "INCLUDE lines with broken quoting, file present", n)
+    finally:
+        shutil.rmtree(tmp, ignore_errors=True)
 
 
 # ------------------------------------------------------------------ (f') storms after an unterminated opener, in a killable child process
@@ -710,6 +740,8 @@ def _run_unit_inner(unit, res):
         run_mut(res, _TIER[0], unit[1])
     elif k == "SOUP":
         run_soup(res, unit[1], unit[2])
+    elif k == "INCLUDEQ":
+        run_includeq(res)
     elif k == "ROOTS":
         run_roots(res)
     elif k == "TIMING":
